@@ -836,8 +836,10 @@ func (c *Ctx) ruleR10e(rule string) {
 						var others []ssa.Value
 						for _, r2 := range ssax.Returns(fn) {
 							if r2 != x && len(r2.Results) == 1 {
-								if p, isP := ssax.Strip(r2.Results[0]).(*ssa.Parameter); isP {
-									others = append(others, p)
+								// what the helper returns when it does not take the context's error: the error it was given
+								// (possibly after the no-match fallback has been merged into it)
+								if v := ssax.Strip(r2.Results[0]); !ssax.IsNilConst(v) && v != ssa.Value(cl) && isErrorType(v.Type()) {
+									others = append(others, v)
 								}
 							}
 						}
